@@ -18,8 +18,10 @@ pub enum P {
     EqD,
     Event,
     HeapSize,
+    /// comparison of a struct creator's result (backdating)
+    EqOut,
 }
-pub const ALL_P: [P; 11] = [
+pub const ALL_P: [P; 12] = [
     P::BodyEntry,
     P::BodyMid,
     P::BodyExit,
@@ -31,6 +33,7 @@ pub const ALL_P: [P; 11] = [
     P::EqD,
     P::Event,
     P::HeapSize,
+    P::EqOut,
 ];
 
 /// Payload of an injected panic.
